@@ -644,7 +644,7 @@ struct Tcp
 					error_code lec;
 					tcp::endpoint const le = s.sock->local_endpoint(lec);
 					s.sock->close(cec);
-					s.sock->open(tcp::v4(), cec);
+					s.sock->open(addrA.is_v4() ? tcp::v4() : tcp::v6(), cec);
 					s.sock->non_blocking(true);
 					if (!lec) s.sock->bind(le, cec);
 					ctx.hit("connect_abandoned_too_late");
@@ -726,7 +726,7 @@ struct Tcp
 		};
 		// a server that keeps one pre-opened socket object around for the next connection - opened, as it happens, for the
 		// other address family than the connection that arrives (accept closes it and takes it over)
-		if (variant != 2 && plan.c("accept_target_v6", 0) && !s.sock->is_open()) { error_code oec; s.sock->open(tcp::v6(), oec); ctx.hit("accept_into_socket_opened_for_v6"); }
+		if (variant != 2 && plan.c("accept_target_v6", 0) && !s.sock->is_open()) { error_code oec; s.sock->open(addrB.is_v4() ? tcp::v6() : tcp::v4(), oec); ctx.hit("accept_into_socket_opened_for_v6"); }
 		if (variant == 0) acceptors[c]->async_accept(*s.sock, done);
 		else if (variant == 1)
 		{
@@ -1081,6 +1081,12 @@ struct Tcp
 	{
 		addrA = ip::make_address_v4("10.0.0.1");
 		addrB = ip::make_address_v4("10.0.1.1");
+		if (plan.c("v6", 0) && !c19 && !g_queue_export)
+		{
+			// the same program between two IPv6 addresses (captures are an IPv4 matter)
+			addrA = ip::make_address_v6("fd00::a:1");
+			addrB = ip::make_address_v6("fd00::b:1");
+		}
 		nconn = int(std::max<int64_t>(1, std::min<int64_t>(k_max_conns, plan.c("conns", 1))));
 		accept_variant = int(plan.c("accept_variant", 0));
 		mtuAB = int(std::max<int64_t>(64, std::min<int64_t>(9000, plan.c("mtu", 1475))));
@@ -1136,7 +1142,7 @@ struct Tcp
 		{
 			decoy_junk.assign(300, 0xA5);
 			decoy.reset(new tcp::acceptor(*nodeB));
-			decoy->open(tcp::v4());
+			decoy->open(addrB.is_v4() ? tcp::v4() : tcp::v6());
 			decoy->bind(tcp::endpoint(addrB, 7900));
 			decoy->listen();
 			arm_decoy();
@@ -1146,12 +1152,12 @@ struct Tcp
 		{
 			accept_ep[c] = tcp::endpoint(addrB, uint16_t(7000 + c));
 			acceptors[c].reset(new tcp::acceptor(*nodeB));
-			acceptors[c]->open(tcp::v4());
+			acceptors[c]->open(addrB.is_v4() ? tcp::v4() : tcp::v6());
 			acceptors[c]->bind(accept_ep[c]);
 			acceptors[c]->listen();
 			arm_accept(c);
 			Side& s = sides[c][0];
-			s.sock->open(tcp::v4());
+			s.sock->open(addrA.is_v4() ? tcp::v4() : tcp::v6());
 			s.sock->non_blocking(true);
 			// (some clients use the very port number they dial, on their own address)
 			s.sock->bind(tcp::endpoint(addrA, uint16_t((plan.c("same_port", 0) ? 7000 : 5000) + c)));
@@ -1374,6 +1380,7 @@ struct TcpEngine : Engine
 		p.cfg["past_timer"] = rng.chance(0.1) ? 1 : 0;
 		p.cfg["poll_reads"] = rng.chance(0.15) ? 1 : 0;
 		p.cfg["accept_target_v6"] = rng.chance(0.12) ? 1 : 0;
+		p.cfg["v6"] = (!c19 && rng.chance(0.12)) ? 1 : 0;
 		p.cfg["abandon"] = (!c06 && !c19 && rng.chance(0.12)) ? 1 : 0;
 		bool const finite = (c06 && rng.chance(0.7)) || (c05 && rng.chance(0.35));
 		int nconn = 1;
